@@ -104,6 +104,29 @@ def plan(plan, tier, seed):
         plan.anchor_errors.append(("C07.verus.decode_instructions.*", repr(e)))
     with open(os.path.join(VERIF, "contracts", "C07", "kani_program.rs")) as f:
         text = f.read()
+    # the opcode / type-tag harnesses compare from_u8 / from_u16 with the discriminants the enums DECLARE in the current source (a new, consistently
+    # decoded opcode or tag is not an alarm)
+    try:
+        sec = re.sub(r"//[^\n]*", "", vlib.read_repo("src/core/src/program/compiler/sections.rs"))
+        def discriminants(name):
+            m = vlib.find_code(sec, r"pub enum %s\s*\{" % name)
+            if not m:
+                raise vlib.AnchorLost("enum %s not found" % name)
+            body = sec[m.end():vlib.match_brace(sec, m.end() - 1) - 1]
+            vals, nxt = [], 0
+            for item in [x.strip() for x in body.split(",") if x.strip()]:
+                mm = re.fullmatch(r"(\w+)(?:\s*=\s*(0x[0-9A-Fa-f]+|\d+))?", item)
+                if not mm:
+                    raise vlib.AnchorLost("enum %s: variant `%s` outside the rules" % (name, item))
+                if mm.group(2):
+                    nxt = int(mm.group(2), 0)
+                vals.append(nxt)
+                nxt += 1
+            return vals
+        text = text.replace("/*@OPCODE_KNOWN@*/", "(" + " || ".join("b == %d" % v for v in discriminants("OpCode")) + ")")
+        text = text.replace("/*@TYPETAG_KNOWN@*/", "(" + " || ".join("t == %d" % v for v in discriminants("TypeTag")) + ")")
+    except vlib.AnchorLost as e:
+        plan.anchor_errors.append(("C07.codec.OpCode.from_u8", str(e)))
     plan.harness_files[os.path.join(vlib.GEN, "C07", "kani_program.rs")] = text
     hmap = {}
     # measured: these do not finish within the per-harness limit (data-dependent Vec::with_capacity / symbolic-length slices);
